@@ -357,7 +357,11 @@ impl BlockManager {
         let mut state = self.inner.state.write().unwrap();
         state.reclaiming_blocks.remove(&block.id());
         self.inner.metrics.storage_block_engine_block_reclaiming.decrease(1);
-        if let Some(waiter) = state.clean_block_waiters.pop() {
+        // Serve the waiters first-come-first-served: the blocks of one flush batch wait in sequence order
+        // and must be written in that order, otherwise newer entries reach the device (and get reclaimed)
+        // before older ones of the same batch.
+        if !state.clean_block_waiters.is_empty() {
+            let waiter = state.clean_block_waiters.remove(0);
             self.inner.metrics.storage_block_engine_block_writing.increase(1);
             let _ = waiter.send(block);
         } else {
